@@ -154,7 +154,9 @@ def check_scan(base_rel, base, files, dirs, mp_rel, entry, res, spelling="qualif
 def check_tree(entries, res, placement):
     viol = []
     files, dirs = materialise(entries)
-    outer = scratch_dir(f"c04-{abs(hash(str(sorted(entries.items())))) % 10**9}")
+    # the same directory path is re-used for every tree of a shard (wiped and re-written): a scan
+    # must describe the tree as it is now, not what was found at that path earlier in the process
+    outer = scratch_dir("c04-tree")
     base = outer if placement == "neutral" else os.path.join(outer, "top")
     try:
         os.makedirs(base, exist_ok=True)
@@ -208,7 +210,7 @@ def seam_check(ns, I, seed, res):
             files[rel + ".py"] = [("import", v) for (u, v) in I if u == n]
         else:
             dirs.add(rel)
-    base = scratch_dir(f"c04seam-{abs(hash((tuple(ns), tuple(I)))) % 10**9}")
+    base = scratch_dir("c04-seam")  # same path re-used for every architecture of the shard
     try:
         write_tree(base, {rel: source(fs) for rel, fs in files.items()}, dirs)
         root = os.path.join(base, ns[0])
